@@ -97,6 +97,23 @@ Theorem C20_tamper_safe_getkey :
 Proof. exact tamper_safe_getkey. Qed.
 Print Assumptions C20_tamper_safe_getkey.
 
+(* 3b. For EVERY document and passphrase: what bare DecryptKey accepts carries the MAC
+       H(mk ++ ciphertext) for the 16 bytes mk = derived[16:32] of the key derived from the bytes of THIS
+       passphrase (get_kdf_key is applied to `auth` itself).  A MAC recomputed without the passphrase -
+       for an empty, shorter or all-zero MAC key, whatever dklen says - is accepted only through a Keccak
+       collision or if derived[16:32] happens to equal that key. *)
+Theorem C20_accepted_mac_key :
+  forall kdf aes_ctr aes_cbc_dec H pub_addr (f : keyfile) (auth k a : bytes),
+    decrypt_key kdf aes_ctr aes_cbc_dec H pub_addr f auth = Ok (k, a) ->
+    exists machex cthex kdfname mac ct d mk,
+      as_string (kf_mac f) = Some machex /\ as_string (kf_ciphertext f) = Some cthex /\
+      as_string (kf_kdf f) = Some kdfname /\
+      hex_decode machex = Some mac /\ hex_decode cthex = Some ct /\
+      get_kdf_key kdf f kdfname auth = Ok d /\ slice 16 32 d = Some mk /\ length mk = 16%nat /\
+      H (mk ++ ct) = mac.
+Proof. exact accepted_mac_key. Qed.
+Print Assumptions C20_accepted_mac_key.
+
 (* Bare DecryptKey (used by Import / Export without an address comparison): a
    changed ciphertext under the unchanged MAC is an error or a Keccak collision. *)
 Theorem C20_ciphertext_tamper_detected :
